@@ -126,7 +126,8 @@ class C01(SeqProp):
                 if ch.max_abs_detuning is not None and np.any(np.abs(d) > ch.max_abs_detuning + TOL):
                     bad("detuning-above-max", f"channel {name}: max |det| {np.abs(d).max()} > {ch.max_abs_detuning}")
                 avg = float(np.average(a))
-                if 0 < avg < ch.min_avg_amp * (1 - 1e-9):
+                if avg != 0 and avg < ch.min_avg_amp * (1 - 1e-9):
+                    # "nor below the minimum average when non-zero" (a negative average included)
                     bad("average-below-min", f"channel {name}: average amplitude {avg} < {ch.min_avg_amp}")
                 if isinstance(ch, DMM):
                     w = np.asarray(seq._schedule[name].detuning_map.weights, dtype=float)
